@@ -305,6 +305,151 @@ func c15(x *Ctx) {
 		}
 	}
 	c.Min(r6, 2)
+
+	// ---- every parsed peer report refreshes that peer's entry (level and timestamp) ------------------------
+	const r7 = "C15.report-refreshes-entry"
+	if up := x.Fn(r7, "collect", "StressRelief", "onStressLevelUpdate"); up != nil {
+		levelsF := eng.FieldIs("collect", "StressRelief", "stressLevels")
+		as := &eng.Assume{Nil: func(v ssa.Value) eng.Tri {
+			if isExtractOf(v, 1, "collect.unmarshalStressReliefMessage") {
+				return eng.True // the message parsed
+			}
+			return eng.Unknown
+		}}
+		r := eng.Explore(eng.Query{Fn: up, Assume: as, Classify: func(in ssa.Instruction, _ eng.Facts) eng.Event {
+			if mu, ok := in.(*ssa.MapUpdate); ok && loadsField(mu.Map, levelsF) {
+				// the stored report carries a fresh timestamp
+				if _, fresh := eng.Derives(mu.Value, func(v ssa.Value) bool {
+					cl, ok := v.(*ssa.Call)
+					return ok && strings.HasSuffix(eng.CalleeName(cl), ".Now")
+				}, eng.FlowOpts{}); fresh {
+					return eng.EvSink
+				}
+			}
+			return eng.EvNone
+		}})
+		c.Examined += r.States
+		bad := false
+		var path []*ssa.BasicBlock
+		for _, e := range r.Exits {
+			if _, isRet := e.Instr.(*ssa.Return); isRet && e.Sinks == 0 {
+				bad, path = true, e.Path
+			}
+		}
+		if bad {
+			o := c.Violate(r7, "onStressLevelUpdate", x.PosOf(up.Pos()), "a peer report that parsed correctly can be discarded without refreshing the peer's entry and its timestamp: a peer that keeps reporting the same level expires from the cluster aggregate although its reports are recent, so the level acted on drops below the documented root-mean-square")
+			o.Path = eng.DescribePath(x.P.Pos, path)
+		} else {
+			c.Hold(r7, "onStressLevelUpdate", x.PosOf(up.Pos()), "parsed report ⇒ entry stored with the current time")
+		}
+	}
+
+	// ---- the local level lies in [0,100]: every algorithm takes its input from a clamped ratio ----------------
+	const r8 = "C15.level-bounded"
+	bounded := map[*ssa.Function]int{} // 0 unknown, 1 in progress, 2 yes, 3 no
+	var isBounded01 func(f *ssa.Function) bool
+	isClampCall := func(v ssa.Value) bool {
+		cl, ok := v.(*ssa.Call)
+		if !ok || eng.CalleeName(cl) != "collect.clamp" || len(cl.Call.Args) != 3 {
+			return false
+		}
+		lo, ok1 := eng.ConstFloat(cl.Call.Args[1])
+		hi, ok2 := eng.ConstFloat(cl.Call.Args[2])
+		return ok1 && ok2 && lo >= 0 && hi <= 1
+	}
+	isBounded01 = func(f *ssa.Function) bool {
+		if f == nil || f.Blocks == nil {
+			return false
+		}
+		switch bounded[f] {
+		case 1, 3:
+			return false
+		case 2:
+			return true
+		}
+		bounded[f] = 1
+		ok, n := true, 0
+		eng.Instrs(f, func(in ssa.Instruction) {
+			ret, isRet := in.(*ssa.Return)
+			if !isRet || len(ret.Results) != 1 {
+				return
+			}
+			n++
+			for _, l := range leaves(ret.Results[0], nil) {
+				switch y := l.(type) {
+				case *ssa.Const:
+					if k, isF := eng.ConstFloat(y); !isF || k < 0 || k > 1 {
+						ok = false
+					}
+				case *ssa.Call:
+					if !isClampCall(y) && !isBounded01(y.Call.StaticCallee()) {
+						ok = false
+					}
+				default:
+					ok = false
+				}
+			}
+		})
+		if ok && n > 0 {
+			bounded[f] = 2
+			return true
+		}
+		bounded[f] = 3
+		return false
+	}
+	algF := eng.FieldIs("collect", "StressRelief", "algorithms")
+	nAlg := 0
+	algMaps := map[ssa.Value]bool{} // map values stored into the field (a map literal is built first, then stored)
+	for _, w := range eng.FieldWrites(x.PkgFuncs("collect"), algF) {
+		algMaps[w.Instr.(*ssa.Store).Val] = true
+	}
+	for _, f := range x.PkgFuncs("collect") {
+		eng.Instrs(f, func(in ssa.Instruction) {
+			mu, ok := in.(*ssa.MapUpdate)
+			if !ok || !(loadsField(mu.Map, algF) || algMaps[mu.Map]) {
+				return
+			}
+			name := ""
+			eng.Derives(mu.Value, func(v ssa.Value) bool {
+				if mc, ok := v.(*ssa.MakeClosure); ok {
+					name = strings.TrimSuffix(mc.Fn.Name(), "$bound")
+				}
+				return false
+			}, eng.FlowOpts{})
+			alg := x.P.Func("collect", "StressRelief", name)
+			if alg == nil || alg.Blocks == nil {
+				c.Undecided(r8, "algorithm/"+name, x.Pos(in), "cannot resolve the algorithm function")
+				return
+			}
+			nAlg++
+			c.Examined++
+			// every non-constant input of the returned value is a call of a function bounded to [0,1]
+			bad := ""
+			eng.Instrs(alg, func(i2 ssa.Instruction) {
+				ret, isRet := i2.(*ssa.Return)
+				if !isRet || len(ret.Results) != 1 {
+					return
+				}
+				for _, l := range leaves(ret.Results[0], func(cl *ssa.Call) bool { return strings.HasPrefix(eng.CalleeName(cl), "math.") }) {
+					switch y := l.(type) {
+					case *ssa.Const:
+					case *ssa.Call:
+						if !isClampCall(y) && !isBounded01(y.Call.StaticCallee()) {
+							bad = eng.CalleeName(y)
+						}
+					default:
+						bad = l.String()
+					}
+				}
+			})
+			c.Decide(bad == "", r8, "algorithm/"+name, x.PosOf(alg.Pos()), "computed from a ratio clamped to [0,1]",
+				"the "+name+" algorithm computes the stress level from "+bad+", which is not clamped to [0,1]: with a resource over its configured capacity the local level exceeds 100 and that value is acted on and published to peers")
+		})
+	}
+	if nAlg == 0 {
+		c.Undecided(r8, "algorithms", "collect/stressRelief.go", "no algorithm registrations found")
+	}
+	c.Min(r8, 4)
 }
 
 func fieldNameOf(in ssa.Instruction) string {
